@@ -613,7 +613,7 @@ func (r *Reader) MarkdownWithOptions(opts ExtractOptions) (string, error) {
 		for col := minCol; col <= maxCol; col++ {
 			result.WriteString(" ")
 			if minRow < len(sheet.Rows) && col < len(sheet.Rows[minRow]) {
-				result.WriteString(escapeMarkdown(sheet.Rows[minRow][col].Value))
+				result.WriteString(escapeMarkdown(displayedValue(sheet.Rows[minRow][col])))
 			}
 			result.WriteString(" |")
 		}
@@ -792,7 +792,7 @@ func (r *Reader) Document() (*model.Document, error) {
 				cell := sheet.Rows[rowIdx][colIdx]
 
 				modelCell := model.Cell{
-					Text:    cell.Value,
+					Text:    displayedValue(cell),
 					RowSpan: cell.MergeRows,
 					ColSpan: cell.MergeCols,
 				}
@@ -811,6 +811,16 @@ func (r *Reader) Document() (*model.Document, error) {
 	}
 
 	return doc, nil
+}
+
+// displayedValue returns the value a spreadsheet shows at the cell's position:
+// a merged region shows the value of its top-left cell only, whatever the
+// covered cells still store.
+func displayedValue(cell Cell) string {
+	if cell.IsMerged && !cell.IsMergeRoot {
+		return ""
+	}
+	return cell.Value
 }
 
 // Tables returns all sheets as ParsedTable format (for compatibility).
@@ -845,7 +855,7 @@ func (r *Reader) sheetToTable(sheet *Sheet) ParsedTable {
 	if minRow <= maxRow && minRow < len(sheet.Rows) {
 		for col := minCol; col <= maxCol; col++ {
 			if col < len(sheet.Rows[minRow]) {
-				table.Headers = append(table.Headers, sheet.Rows[minRow][col].Value)
+				table.Headers = append(table.Headers, displayedValue(sheet.Rows[minRow][col]))
 			} else {
 				table.Headers = append(table.Headers, "")
 			}
@@ -857,7 +867,7 @@ func (r *Reader) sheetToTable(sheet *Sheet) ParsedTable {
 		var rowData []string
 		for col := minCol; col <= maxCol; col++ {
 			if row < len(sheet.Rows) && col < len(sheet.Rows[row]) {
-				rowData = append(rowData, sheet.Rows[row][col].Value)
+				rowData = append(rowData, displayedValue(sheet.Rows[row][col]))
 			} else {
 				rowData = append(rowData, "")
 			}
